@@ -94,9 +94,9 @@ CATALOG = [
     ("RIM", "b", dict(n_clusters=4, reg=0.01, batch_size=3, solver="sgd"), 10, None),
     ("RIM", "c", dict(n_clusters=3, reg=0.0), 9, None),
     ("KernelRIM", "a", dict(n_clusters=3, reg=0.1, base_kernel="linear"), 8, None),
-    ("KernelRIM", "b", dict(n_clusters=2, reg=0.5, base_kernel="rbf", base_kernel_params={"gamma": 0.5}, batch_size=4), 9, None),
+    ("KernelRIM", "b", dict(n_clusters=2, reg=0.5, base_kernel="rbf", base_kernel_params={"gamma": 4.0}, batch_size=4), 9, None),
     ("KernelRIM", "c", dict(n_clusters=3, reg=0.2, base_kernel=_spy), 10, None),
-    ("KernelRIM", "d", dict(n_clusters=2, reg=0.05, base_kernel="polynomial", base_kernel_params={"degree": 2, "coef0": 1.0},
+    ("KernelRIM", "d", dict(n_clusters=2, reg=0.05, base_kernel="polynomial", base_kernel_params={"degree": 2, "coef0": 0.0, "gamma": 2.0},
                             solver="sgd"), 8, None),
     ("MLPModel", "a", dict(n_clusters=2, gemini="tv_ova", n_hidden_dim=3), 8, None),
     ("MLPModel", "b", dict(n_clusters=3, gemini="mmd_ovo", n_hidden_dim=7, batch_size=4), 9, None),
@@ -130,6 +130,8 @@ CATALOG = [
     ("Kauri", "b", dict(max_clusters=3, max_depth=2, min_samples_split=4, min_samples_leaf=2), 10, None),
     ("Kauri", "c", dict(max_clusters=4, max_depth=1, kernel="rbf"), 9, None),
     ("Kauri", "d", dict(max_clusters=3, max_leaves=3, max_features=2), 10, None),
+    # the same kind of data far from the origin (values near 1e6 with gaps well below 1): routing compares exactly, at any magnitude
+    ("Kauri", "e-offset", dict(max_clusters=3, kernel="rbf", _offset=1.0e6), 10, None),
 ]
 _GRADIENT = dict(max_iter=4, learning_rate=0.05)
 
@@ -176,13 +178,15 @@ def build_state(cls, vid, kw, n, ykind, seed, qmode, M):
     kw["random_state"] = seed
     if cls != "Kauri":
         kw = {**_GRADIENT, **kw}
-    X = train_data(n, seed)
+    kw = dict(kw)
+    X = train_data(n, seed) + kw.pop("_offset", 0.0)
     y = _affinity(X, ykind)
     st = State(f"{cls}/{vid}" + ("/train-as-query" if qmode == "train" else ""), cls, kw, X, y, qmode, M)
     model = params.resolve(cls)(**kw)
     try:
+        st.Xfit = np.ascontiguousarray(X, dtype=np.float64).copy()          # the very array object handed to fit
         with params.quiet():
-            model.fit(X.copy(), None if y is None else y.copy())
+            model.fit(st.Xfit, None if y is None else y.copy())
     except Exception as e:
         raise MachineryError(f"catalogue state {st.sid} cannot be fitted: {type(e).__name__}: {e}")
     st.model = model
@@ -227,8 +231,9 @@ def family_specs(M, seed0):
         model = factory(**commons[j])
         st = State(f"family:{name}/{j}", type(model).__name__, commons[j], X, y, "mixed", M)
         try:
+            st.Xfit = np.ascontiguousarray(X, dtype=np.float64).copy()
             with params.quiet():
-                model.fit(X.copy(), None if y is None else np.array(y, dtype=float))
+                model.fit(st.Xfit, None if y is None else np.array(y, dtype=float))
         except Exception as e:
             raise MachineryError(f"family state {st.sid} cannot be fitted: {type(e).__name__}: {e}")
         st.model = model
